@@ -307,10 +307,21 @@ func (s *Scanner) addPos(p int) {
 	s.total += p
 }
 
+// escapedPrefix reports if the opening quote that was just consumed is preceded
+// by the E (or e) that starts a PostgreSQL escaped string constant, e.g. E'\''.
+func (s *Scanner) escapedPrefix() bool {
+	i := s.pos - 2 // The byte before the opening quote.
+	if i < 0 || s.input[i] != 'E' && s.input[i] != 'e' {
+		return false
+	}
+	// The E is a token by itself, and not the tail of another one (e.g. LIKE'..').
+	return i == 0 || !unicode.IsLetter(rune(s.input[i-1])) && !unicode.IsDigit(rune(s.input[i-1])) && s.input[i-1] != '_'
+}
+
 func (s *Scanner) skipQuote(quote rune) error {
 	var (
 		pos     = s.pos
-		escaped = s.BackslashEscapes || s.EscapedStringExt && s.pos > 0 && (s.input[s.pos-1] == 'E' || s.input[s.pos-1] == 'e')
+		escaped = s.BackslashEscapes || s.EscapedStringExt && s.escapedPrefix()
 	)
 	for {
 		switch r := s.next(); {
